@@ -48,4 +48,14 @@ TEXT = {
    level='Deductive proof (Verus/Z3) for every game value satisfying the stated well-formedness (not only canonical ones): the declared raw length equals 2 + 3*|table| + start + end (only when present; twice with the duplicate quirk) + per-event-kind counts times (1 + payload size) + 517 per gecko block, where the counts are proved to be the number of frame rows, the number of present characters summed over ports (validity bitmaps) and the number of item rows; u32 overflow is excluded from the stated bound raw length <= u32::MAX. The written bytes depend only on the column view (file_spec), so non-canonical input order cannot show in the output.',
    note='The equality "sum over frames of emitted event lengths == counts formula" (a double-sum rearrangement over spec functions, independent of the code) is argued in DESIGN.md, not mechanised. Re-read equality (second read yields the same game) rests on the C01/C04 contracts plus that written argument. Defect F1 (end-less game: declared length 2 bytes too long) was found by this check and repaired (fix: commit 54396e1).',
    design_ref='DESIGN.md §5 C17'),
+ 'C04': dict(
+   technique='Verus contract on the extracted parse_event (one postcondition with a complete frame condition per event kind), frame_close loop invariants, frame_open, Frame/PortData/Data::with_capacity and push_null',
+   level='Deductive proof (Verus/Z3) that, from ANY structurally well-formed parser state (hence after every prefix of every history) and for any version/ports, one well-formed event has exactly this effect: Frame Start appends one id row and one start row (closing the previous frame first before 3.0); a pre/post event appends one decoded row to the pre/post columns of exactly the addressed character (slot = port index, leader/follower by the flag) with a `present` bit, every other character, port and column untouched (before 2.2 a pre event with the next id opens the row); an item event appends one item row; Frame End appends the item offset delimiting that frame\'s items and one end row, then pads every character that had no events with null rows marked absent so that every column has one entry per frame row; any other code leaves all frame columns untouched. with_capacity creates one column set per occupied port, with a follower exactly for Ice Climbers.',
+   note='The induction over the whole event history (folding these single-event effects over a file) is a written argument (DESIGN.md §5 C04), not mechanised. Premise of the functional contract: the event is consistent with the open frame (port occupied, follower flag only on an ICs slot, frame id equals the open frame, event legal for the version, a closing event finds each character with both or neither of its events); the behaviour WITHOUT that premise is what C06 checks. Assumed: shim contracts for arrow2 mutable arrays/Offsets, read_push stubs (discharged in codec_mut), Event::try_from regenerated from the enum discriminants.',
+   design_ref='DESIGN.md §5 C04'),
+ 'C08': dict(
+   technique='Verus frame condition on the extracted parse_event for codes outside the known set + prefix-consumption clauses of the generated readers',
+   level='Deductive proof (Verus/Z3): for ANY well-formed parser state, an event whose code is not one of the ten known codes but has an entry in the payload-size table consumes exactly 1 + size bytes, returns Ok, and leaves every frame column, the game end, gecko codes and accumulator unchanged (only the consumed-byte count grows) - so it holds at every boundary and any number of times; a code without a table entry is an error. Every generated reader consumes exactly the table size for the version and ignores the rest of the payload (read_push contracts), so longer payloads of newer versions decode to the same values.',
+   note='The Game Start / Game End optional tails (if_more) for newer versions are covered by the start/end unit (C05). Payload-table parsing keyed by raw code is in the reader unit.',
+   design_ref='DESIGN.md §5 C08'),
 }
